@@ -129,7 +129,7 @@ def run(prop, tier, seed, replay=None):
     res.coverage = {"states": states, "transitions": transitions,
                     "traces_validated_against_impl": cases - bad, "cases": cases, "cases_with_expected_calls": firing,
                     "mismatching": bad, "scopes": scopes, "exhaustive": True, "samples": samples,
-                    "alphabet": "a, b, é (2 bytes), 𝄞 (4 bytes); 16 kinds of key event (two of them across a gossip reset of the owner's copy); fates held/dropped/forever",
+                    "alphabet": "a, b, é (2 bytes), 𝄞 (4 bytes); 17 kinds of key event (three of them across a gossip reset of the owner's copy); fates held/dropped/forever",
                     "checker_cmd": "tlc Listeners.tla | harness listeners ; differing cases -> tlc ObserveListeners.tla"}
     res.assumptions = ["replicated writes are delivered as crafted ACKs through the independent codec",
                        "exhaustive within the stated string lengths; 'multi' family: three subscriptions "
